@@ -55,7 +55,7 @@ func ruleValidateRefs(c *Ctx) {
 	bad := []string{}
 	n := 0
 	structFirst := true
-	sim := c.P.Simulate(fn, SimConfig{MaxPaths: 1 << 16}, func(pr *PathResult) {
+	sim := c.P.Simulate(fn, SimConfig{MaxPaths: 1 << 18, MaxVisits: 2}, func(pr *PathResult) {
 		n++
 		for _, l := range pr.Conds {
 			if l.Atom.Op == "eq" {
@@ -109,7 +109,11 @@ func ruleValidateRefs(c *Ctx) {
 	}
 	// the found-flags are per referrer: no flag state is carried around the outermost loop of its section
 	flags := 0
-	for _, b := range fn.Blocks {
+	var allBlocks []*ssa.BasicBlock
+	for g := range staticScope(fn, "config", 3) {
+		allBlocks = append(allBlocks, g.Blocks...)
+	}
+	for _, b := range allBlocks {
 		iff, ok := b.Instrs[len(b.Instrs)-1].(*ssa.If)
 		if !ok {
 			continue
@@ -129,11 +133,11 @@ func ruleValidateRefs(c *Ctx) {
 		if !retErr {
 			continue
 		}
+		flags++
 		cyc := cycleOf(b)
 		if cyc == nil {
-			continue
+			continue // not inside a loop of its function: the flag is local to one call (one referrer)
 		}
-		flags++
 		var outer *ssa.BasicBlock
 		for x := range cyc {
 			for _, p := range x.Preds {
